@@ -422,8 +422,8 @@ fn cmd_run(a: &Args) -> i32 {
                 let r = run::run_history(&cfg, &mut g, 10_000);
                 (r, format!("enum n={} base={} full={} idx={} [{}]", sp.n, sp.pair_base, sp.full_only, this, desc))
             }
-            None if gen == "script" || gen == "panic" => {
-                let mode = if gen == "script" { gen::ScriptMode::Reentrant } else { gen::ScriptMode::Panic };
+            None if gen == "script" || gen == "panic" || gen == "weakescape" => {
+                let mode = if gen == "script" { gen::ScriptMode::Reentrant } else if gen == "panic" { gen::ScriptMode::Panic } else { gen::ScriptMode::WeakEscape };
                 let (ops, desc) = gen::script_ops(this, seed, mode);
                 let mut it = ops.into_iter();
                 // after the scripted part, a few random operations on the survivors
